@@ -4,7 +4,7 @@ import os, json, vplib
 def run(chk):
     T = chk.tier
     chk.rule = ("TLC: Issuance.tla - the three-message issuance protocol with origin-tagged fields for every configuration (random-blind attribute, witness, keyshare "
-                "contribution) and a network adversary applying ONE fault: every field of both messages and of the issuer's session view altered / substituted from a "
+                "contribution) and a network adversary applying ONE fault (thorough: every pair of faults): every field of both messages and of the issuer's session view altered / substituted from a "
                 "parallel honest run / dropped, whole messages replayed from the parallel run; invariants Integrity, Complete, RejectIsError. Replay: every emitted "
                 "case is executed with two real runs (1024-bit keys, real CredentialBuilder, commitment proof incl. keyshare completion, Issuer.IssueSignature, "
                 "ConstructCredential) over several concrete layouts (1..4 attributes, random and all-index blind subsets, boundary-sized values); outcome classes "
@@ -12,10 +12,11 @@ def run(chk):
                 "(secret, attributes) with blind attributes >= the issuer's share. Non-trivial = distinct (configuration, fault, layout).")
     chk.assumptions = ["the issuer signs the U of the verified ProofU (message-level icm.U is not used), as the application layer does",
                        "a witness dropped as a whole yields a credential without witness or a rejection (both allowed)",
-                       "single faults only; 1024-bit keys"]
-    g = vplib.tlc_mc("IssuanceGen", "Issuance.mc.cfg", workers=1, timeout=600)
+                       "single faults (thorough: pairs); 1024-bit keys"]
+    cfg = "Issuance.mc.thorough.cfg" if T == "thorough" else "Issuance.mc.cfg"
+    g = vplib.tlc_mc("IssuanceGen", cfg, workers=1, timeout=600)
     cases = sorted(set(g.tagged_raw_json("C")))
-    chk.add_tlc(g, "IssuanceGen", "Issuance.mc.cfg", "Integrity, Complete, RejectIsError; %d cases" % len(cases))
+    chk.add_tlc(g, "IssuanceGen", cfg, "Integrity, Complete, RejectIsError; %d cases" % len(cases))
     if len(cases) < 300:
         raise vplib.Machinery("generator produced only %d cases" % len(cases))
     cp = os.path.join(vplib.sub("c06"), "cases.ndjson")
